@@ -5,18 +5,22 @@ PROP = "C08"
 DRIVER = "c08"
 MODEL = "C08"
 MODEL_QUALID = "Model.Budget.run_script"
-FORMAT = ("[kind 0=token-bucket 1=AIMD-budget; p0..p5 (tb: max_tokens, initial_tokens | aimd: min_budget, "
-          "max_budget, deposit_amount, withdraw_amount, decrease factor num, den); npre; (code arg)*; nthreads; "
-          "{ncalls; (code arg)*}*; nsched; thread-id*]  call codes 0 try_withdraw 1 deposit 2 balance() "
-          "3 current_max(); each schedule entry = ONE atomic operation of that worker (finished workers are "
-          "skipped), afterwards worker 0 runs to completion, then worker 1, ... -> return values of the prelude calls, per entry [op 0 skip/1 load/"
-          "2 store/3 cas/4 rmw; return value of the call completed by this operation or -1; balance(); ceiling], "
-          "per worker [atomic steps; return values (withdraw 0/1, deposit 2, reads: value)], [balance(); ceiling]")
+FORMAT = ("[kind 0=token-bucket 1=AIMD-budget 2/3=the same two built by RetryBudgetBuilder and used through "
+          "Arc<dyn RetryBudget>; p0..p5 (tb: max_tokens, initial_tokens, (kind 2) 1 = initial_tokens not set | "
+          "aimd: min_budget, max_budget, deposit_amount, withdraw_amount, decrease factor num, den); npre; "
+          "(code arg)*; nthreads; {ncalls; (code arg)*}*; nsched; thread-id*]  call codes 0 try_withdraw 1 deposit "
+          "2 balance() 3 current_max() (kinds 0,2,3: balance()); each schedule entry = ONE atomic operation of that "
+          "worker (finished workers are skipped), afterwards worker 0 runs to completion, then worker 1, ... -> "
+          "return values of the prelude calls, per entry [op 0 skip/1 load/2 store/3 cas/4 rmw; return value of the "
+          "call completed by this operation or -1; balance(); ceiling (0 where there is no accessor)], per worker "
+          "[atomic steps; return values (withdraw 0/1, deposit 2, reads: value)], [balance(); ceiling]")
 RULE = ("exhaustive schedules (all thread-id words up to a length covering every interleaving of the first "
         "steps) for 2-3 workers x <=2 calls each over {withdraw, deposit}; random schedules for up to 4 workers x "
-        "6 calls incl. reads, with balances at 0/1/max boundaries, initial > max, AIMD floors/ceilings and "
-        "decrease factors 0..1 (and >1); non-trivial = at least two workers performed atomic steps inside the "
-        "scheduled part")
+        "6 calls incl. reads, with balances at 0/1/max boundaries, initial > max (clamped by the constructor), "
+        "sizes at and beyond 2^64/1000 and u64::MAX (saturating scale), AIMD floors/ceilings, withdraw_amount 0 and "
+        "> max, deposit_amount up to u64::MAX, decrease factors 0..1 (and >1), both construction routes (new / "
+        "builder + dyn object); virtual time advances between all steps; non-trivial = at least two workers "
+        "performed atomic steps inside the scheduled part")
 TRUSTED = [
     "verif-hooks atomics (tower_resilience_core::verif::atomic): fetch_update = load + compare-exchange loop "
     "exactly as std's; compare_exchange_weak never fails spuriously under the hook (spurious failure is a "
@@ -26,12 +30,16 @@ TRUSTED = [
     "reading its ceiling, is covered because the theorems hold for any ceiling value read)",
     "decrease (current as f64 * factor) as usize modelled as an abstract function dec (theorems: for ALL dec); "
     "executable instance floor(x*num/den), generator keeps only (factor, max) pairs on which IEEE binary64 "
-    "agrees with it for every x <= max (checked with Python floats)",
+    "agrees with it for every x <= max (checked with Python floats; above 1000 only factor 0)",
 ]
-ASSUMPTIONS = ["0 <= initial, max_tokens*1000 < 2^64, min_budget <= max_budget (AimdController::new panics otherwise)",
-               "values stay below 2^63 (saturating adds are modelled exactly, u64 wrap of fetch_add is not reachable)"]
+ASSUMPTIONS = ["0 <= initial_tokens, max_tokens, amounts <= usize::MAX = 2^64-1 (64-bit target); "
+               "min_budget <= max_budget (AimdController::new panics otherwise)",
+               "TokenBucketBudget::new: sizes above (2^64-1)/1000 tokens saturate at u64::MAX thousandths "
+               "(defined behaviour since /repo a863e6a, modelled exactly); saturating adds are modelled exactly"]
 
 W, D, B, M = 0, 1, 2, 3
+U64 = (1 << 64) - 1
+TBCAP = U64 // 1000          # whole tokens a token bucket can hold
 
 
 def mk(kind, params, pre, progs, sched):
@@ -64,9 +72,17 @@ def parse(s):
     return kind, params, pre, progs, sched
 
 
+def is_tb(kind):
+    return kind in (0, 2)
+
+
 def float_exact(num, den, mx):
     """the modelling bound: floor(x*num/den) == ((x as f64) * (num/den)) as usize for all 0 <= x <= mx"""
     if den == 0:
+        return False
+    if num == 0:
+        return True
+    if mx > 1000:
         return False
     f = num / den
     return all(int(float(x) * f) == (x * num) // den for x in range(0, mx + 1))
@@ -86,10 +102,30 @@ def corpus():
     out.append(mk(1, [1, 4, 2, 1, 1, 2], [W, W], [[D], [W, W]], [0, 0, 1, 1, 0, 1, 1, 0, 0, 0]))
     # exhausted AIMD budget: failed withdrawals shrink the ceiling while a deposit holds an old ceiling
     out.append(mk(1, [1, 4, 3, 2, 1, 2], [W, W], [[D], [W, W]], [0, 1, 1, 1, 1, 1, 1, 0, 0, 0, 0]))
-    # initial > max (the constructor does not clamp)
-    out.append(mk(0, [2, 5], [], [[D], [W, B]], [0, 1, 0, 1, 1]))
+    # initial > max: the constructor clamps (before /repo a863e6a the balance started at 5 > max 2 and the
+    # first deposit lowered it)
+    out.append(mk(0, [2, 5], [B], [[D], [W, B]], [0, 1, 0, 1, 1]))
+    out.append(mk(0, [0, 3], [B, W], [[D], [W, B]], [0, 1, 0, 1, 1]))
+    out.append(mk(2, [2, 5, 0], [B], [[D], [W, B]], [0, 1, 0, 1, 1]))
+    # sizes at / beyond (2^64-1)/1000 tokens: the scaled representation saturates (it overflowed before a863e6a)
+    for mx, init in ((TBCAP, TBCAP), (TBCAP + 1, TBCAP + 1), (U64, U64), (TBCAP + 1, 3), (3, U64), (U64, TBCAP),
+                     (1 << 63, 1 << 63), ((1 << 53) + 1, (1 << 53) + 1)):
+        out.append(mk(0, [mx, init], [B, W], [[D, B], [W, D]], [0, 1, 0, 1, 1, 0, 0, 1]))
+        out.append(mk(2, [mx, init, 0], [B, W], [[D, B], [W, D]], [0, 1, 0, 1, 1, 0, 0, 1]))
+    out.append(mk(2, [U64, 0, 1], [B, W], [[D, B], [W, D]], [0, 1, 0, 1, 1, 0, 0, 1]))
     # empty bucket
     out.append(mk(0, [2, 0], [], [[W, D], [W, D]], [0, 1, 0, 1, 0, 1, 0]))
+    # AIMD budget at the integer boundary: max = amount = u64::MAX (saturating add in deposit and in the
+    # controller's record_success), withdraw_amount 0 and > max
+    out.append(mk(1, [0, U64, U64, 1, 0, 1], [W, D], [[D, B], [W, M]], [0, 1, 0, 1, 0, 0, 0, 1, 0, 0, 1]))
+    out.append(mk(1, [U64, U64, 1, U64, 0, 1], [W, W, D], [[D, B], [W, M]], [0, 1, 0, 1, 0, 0, 0, 1, 0, 0, 1]))
+    out.append(mk(1, [U64 - 1, U64, 2, 1, 0, 1], [W, W, W], [[D, D], [D, M]], [0, 1, 0, 1, 0, 0, 0, 1, 0, 0, 1, 1, 1]))
+    out.append(mk(1, [1, 4, 1, 0, 1, 2], [W], [[D, W], [W, W]], [0, 1, 1, 0, 0, 1, 0, 0, 0]))
+    out.append(mk(1, [1, 4, 1, 5, 1, 2], [W], [[D, W], [W, M]], [0, 1, 1, 0, 0, 1, 0, 0, 0, 1, 1]))
+    # the builder route with deposit_amount != withdraw_amount (an exchange of the two in
+    # AimdBudgetBuilder::build grants retries that were never funded)
+    out.append(mk(3, [1, 4, 1, 2, 1, 2], [W, W, B], [[D, W], [D, B]], [0, 0, 0, 1, 1, 1, 0, 0, 1, 0]))
+    out.append(mk(3, [0, 6, 2, 1, 1, 2], [W] * 6 + [D, B], [[D, W], [W, B]], [0, 1, 0, 1, 0, 1, 0, 0, 1]))
     return out
 
 
@@ -104,10 +140,71 @@ def progs_over(alpha, maxlen):
     return out
 
 
+def rand_sched(rng, nth, total):
+    style = rng.randrange(3)
+    if style == 0:      # uniform
+        return [rng.randrange(nth) for _ in range(rng.randint(0, total))]
+    if style == 1:      # bursts
+        sched = []
+        while len(sched) < total:
+            sched += [rng.randrange(nth)] * rng.randint(1, 4)
+        return sched
+    slow = rng.randrange(nth)   # one worker starved until late
+    sched = [rng.choice([t for t in range(nth) if t != slow] + ([slow] if rng.random() < 0.1 else []))
+             for _ in range(total)]
+    k = rng.randrange(len(sched) + 1)
+    sched[k:k] = [slow] * rng.randint(1, 3)
+    return sched
+
+
+BIG = [TBCAP - 1, TBCAP, TBCAP + 1, U64, U64 - 1, 1 << 63, (1 << 53) + 1, 1 << 32]
+
+
+def rand_script(rng):
+    nth = rng.randint(2, 4)
+    via_builder = rng.random() < 0.2
+    if rng.randrange(2) == 0:
+        kind = 2 if via_builder else 0
+        if rng.random() < 0.12:
+            mx = rng.choice(BIG)
+            init = rng.choice([0, 1, mx, mx, mx - 1, mx + 1 if mx < U64 else mx, U64, TBCAP])
+        else:
+            mx = rng.choice([0, 1, 2, 3, 5, 50])
+            init = rng.choice([0, 1, mx, mx, max(0, mx - 1), mx + 2, 2 * mx + 1, U64])
+        params = (mx, init, 1 if (kind == 2 and rng.random() < 0.3) else 0)
+        alpha = [W, W, D, D, B]
+        pre = [rng.choice([W, D, B]) for _ in range(rng.choice([0, 0, 0, 2, min(mx, 6)]))]
+        per_call = 3
+    else:
+        kind = 3 if via_builder else 1
+        if rng.random() < 0.12:
+            mx = rng.choice(BIG)
+            mn = rng.choice([0, 1, mx - 1, mx])
+            num, den = 0, 1
+            amount = rng.choice([0, 1, 2, U64, mx, 1 << 63])
+            w = rng.choice([0, 1, 1, mx, U64, mx - 1])
+            pre = [rng.choice([W, D])] * rng.choice([0, 1, 2, 3])
+        else:
+            mx = rng.choice([1, 2, 3, 4, 8, 20, 100])
+            mn = rng.choice([0, 1, mx // 2, mx])
+            num, den = rng.choice(FACTORS)
+            if not float_exact(num, den, mx):
+                num, den = 1, 2
+            amount = rng.choice([0, 1, 1, 2, 5, mx + 3])
+            w = rng.choice([1, 1, 2, 3, 0, mx, mx + 1])
+            pre = [W] * rng.choice([0, 0, mx, mx // 2, mx + 2 if mx < 10 else 0])
+        params = (mn, mx, amount, w, num, den)
+        alpha = [W, W, W, D, D, B, M]
+        per_call = 5
+    progs = [[rng.choice(alpha) for _ in range(rng.randint(1, 6))] for _ in range(nth)]
+    total = sum(len(p) for p in progs) * per_call
+    return mk(kind, params, pre, progs, rand_sched(rng, nth, total))
+
+
 def generate(rng, tier):
     out = []
     thorough = tier == "thorough"
-    tb_cfgs = [(3, 1), (1, 1), (2, 0)]
+    tb_cfgs = [(3, 1), (1, 1), (2, 0), (1, 4)]
     ab_cfgs = [(1, 3, 1, 1, 1, 2), (0, 2, 2, 1, 0, 1)]
     one = progs_over([W, D], 1)
     two = progs_over([W, D], 2)
@@ -125,6 +222,12 @@ def generate(rng, tier):
                 for p1 in one:
                     for w in words(2, L):
                         out.append(mk(1, cfg, pre, [p0, p1], w))
+    # the builder route, deposit_amount != withdraw_amount
+    for p0 in one:
+        for p1 in one:
+            for w in words(2, 7 if thorough else 5):
+                out.append(mk(3, (1, 4, 1, 2, 1, 2), [W], [p0 + [B], p1], w))
+                out.append(mk(2, (2, 1, 0), [], [p0, p1 + [B]], w))
     # --- exhaustive: 2 workers x <=2 calls, 3 workers x 1 call
     if thorough:
         for cfg in tb_cfgs[:2]:
@@ -152,41 +255,8 @@ def generate(rng, tier):
                     for w in rng.sample(allw3, 30):
                         out.append(mk(0, (2, 1), [], [p0, p1, p2], w))
     # --- random: up to 4 workers x 6 calls
-    n = 20000 if thorough else 900
-    for _ in range(n):
-        nth = rng.randint(2, 4)
-        kind = rng.randrange(2)
-        if kind == 0:
-            mx = rng.choice([0, 1, 2, 3, 5, 50])
-            init = rng.choice([0, 1, mx, mx, max(0, mx - 1), mx + 2])
-            params = (mx, init)
-            alpha = [W, W, D, D, B]
-            pre = [rng.choice([W, D]) for _ in range(rng.choice([0, 0, 0, 2, mx]))]
-        else:
-            mx = rng.choice([1, 2, 3, 4, 8, 20, 100])
-            mn = rng.choice([0, 1, mx // 2, mx])
-            num, den = rng.choice(FACTORS)
-            if not float_exact(num, den, mx):
-                num, den = 1, 2
-            params = (mn, mx, rng.choice([0, 1, 1, 2, 5]), rng.choice([1, 1, 2, 3]), num, den)
-            alpha = [W, W, W, D, D, B, M]
-            pre = [W] * rng.choice([0, 0, mx, mx // 2, mx + 2 if mx < 10 else 0])
-        progs = [[rng.choice(alpha) for _ in range(rng.randint(1, 6))] for _ in range(nth)]
-        total = sum(len(p) for p in progs) * (3 if kind == 0 else 5)
-        style = rng.randrange(3)
-        if style == 0:      # uniform
-            sched = [rng.randrange(nth) for _ in range(rng.randint(0, total))]
-        elif style == 1:    # bursts
-            sched = []
-            while len(sched) < total:
-                sched += [rng.randrange(nth)] * rng.randint(1, 4)
-        else:               # one worker starved until late
-            slow = rng.randrange(nth)
-            sched = [rng.choice([t for t in range(nth) if t != slow] + ([slow] if rng.random() < 0.1 else []))
-                     for _ in range(total)]
-            k = rng.randrange(len(sched) + 1)
-            sched[k:k] = [slow] * rng.randint(1, 3)
-        out.append(mk(kind, params, pre, progs, sched))
+    for _ in range(20000 if thorough else 1100):
+        out.append(rand_script(rng))
     return out
 
 
@@ -208,44 +278,161 @@ def split_trace(s, t):
     return entries, per, t[pos:pos + 2], pre_rets
 
 
-def seq_op(kind, params, bal, ceil, c):
-    """the budgets as sequential objects (whole-token units for the token bucket)"""
-    if kind == 0:
-        mx = params[0]
-        if c == W:
-            return (0, bal) if bal < 1 else (1, bal - 1)
-        if c == D:
-            return (2, min(bal + 1, mx))
-        return (bal, bal)
-    raise ValueError
+# ---- the budgets as sequential objects over a SET of possible balances [lo, hi] (the AIMD deposit caps at an
+# unknown ceiling within [min_budget, max_budget], so one history has several sequential explanations) ----
+def seq_apply(obj, iv, c, r):
+    """obj = ('tb', cap) | ('ab', mn, mx, amount, w, has_max). Returns the interval of balances after call c
+    returned r from some balance in iv, or None when no balance in iv explains r."""
+    lo, hi = iv
+    if obj[0] == "tb":
+        cap = obj[1]
+        cost, add, dlo, dhi = 1, 1, cap, cap
+    else:
+        _, mn, mx, add, cost, has_max = obj
+        dlo, dhi = mn, mx
+        if c == M and has_max:
+            return iv if mn <= r <= mx else None
+    if c == W:
+        if r == 1:
+            return (max(lo, cost) - cost, hi - cost) if hi >= cost else None
+        if r == 0:
+            return (lo, min(hi, cost - 1)) if lo < cost else None
+        return None
+    if c == D:
+        return (min(lo + add, dlo), min(hi + add, dhi)) if r == 2 else None
+    return (r, r) if lo <= r <= hi else None          # balance()
+
+
+def linearizable(obj, start, ops, reads):
+    """ops: (inv, res, call, ret) with distinct instants; reads: (instant, value) = balance() by an observer.
+    Is there an order of all of them that respects real time (a before b whenever res(a) < inv(b)) and that
+    the sequential object explains?  Just-in-time search: an operation is linearized, possibly after other
+    pending ones, at the latest when it responds."""
+    evs = []
+    for i, (inv, res, c, r) in enumerate(ops):
+        evs.append((inv, 0, i))
+        evs.append((res, 2, i))
+    for k, (at, v) in enumerate(reads):
+        evs.append((at, 1, k))
+    evs.sort()
+    seen = set()
+
+    def subsets_then(pending, last, iv):
+        """all ways to linearize some of `pending` (any order) and then `last` (an op index, or a read value
+        given as ('r', v)); yields (remaining pending, interval)"""
+        stack = [(pending, iv)]
+        done = set()
+        while stack:
+            pend, cur = stack.pop()
+            if (pend, cur) in done:
+                continue
+            done.add((pend, cur))
+            if isinstance(last, tuple):
+                nxt = (last[1], last[1]) if cur[0] <= last[1] <= cur[1] else None
+                if nxt is not None:
+                    yield pend, nxt
+            elif last in pend:
+                nxt = seq_apply(obj, cur, ops[last][2], ops[last][3])
+                if nxt is not None:
+                    yield pend - {last}, nxt
+            for o in pend:
+                if o == last:
+                    continue
+                nxt = seq_apply(obj, cur, ops[o][2], ops[o][3])
+                if nxt is not None:
+                    stack.append((pend - {o}, nxt))
+
+    def go(pos, pending, iv):
+        """pending: invoked, not yet linearized"""
+        while pos < len(evs):
+            key = (pos, pending, iv)
+            if key in seen:
+                return False
+            seen.add(key)
+            at, typ, i = evs[pos]
+            if typ == 0:
+                pending = pending | {i}
+                pos += 1
+            elif typ == 2 and i not in pending:
+                pos += 1                     # linearized earlier
+            else:
+                last = i if typ == 2 else ("r", reads[i][1])
+                for pend2, iv2 in subsets_then(pending, last, iv):
+                    if go(pos + 1, pend2, iv2):
+                        return True
+                return False
+        return True
+
+    return go(0, frozenset(), (start, start))
+
+
+def history(pre, pre_rets, progs, sched, entries, per, final_bal):
+    """operations with their intervals. Instants: schedule entry k completes a call at 4k+2; the worker invokes
+    its next call right away (4k+3: it then waits at that call's first atomic step); the observer reads the
+    balance at 4k+4. The prelude ran alone before (negative instants); every worker's first call is invoked
+    at -1; after the schedule worker 0 runs to completion, then worker 1, ..."""
+    ops, reads = [], []
+    for i, (c, r) in enumerate(zip(pre, pre_rets)):
+        ops.append((-100000 + 4 * i, -100000 + 4 * i + 2, c, r))
+    n = len(sched)
+    idx = [0] * len(progs)
+    inv = [-1] * len(progs)
+    for k, (op, done, bal, _) in enumerate(entries):
+        if op != 0 and done != -1:
+            tid = sched[k]
+            ops.append((inv[tid], 4 * k + 2, progs[tid][idx[tid]], done))
+            idx[tid] += 1
+            inv[tid] = 4 * k + 3
+        reads.append((4 * k + 4, bal))
+    for tid, p in enumerate(progs):
+        base = 4 * n + 10 + 1000 * tid
+        for j in range(idx[tid], len(p)):
+            ops.append((inv[tid], base + 2, p[j], per[tid][1][j]))
+            inv[tid] = base + 3
+            base += 4
+    reads.append((4 * n + 10 + 1000 * (len(progs) + 1), final_bal))
+    return ops, reads
 
 
 def monitor(s, t):
     """Independent restatement of C08 over the implementation's trace:
-    conservation and cap after every atomic step; ceiling bounds; for the token bucket the completed
-    operations, ordered by the step that completed them, replay on the sequential object with the same
-    return values and the same balance after every step (linearizability, linearization point = the
-    completing step); return values reported per worker agree with the per-step completions."""
+    (1) conservation: grants*cost + balance <= initial + deposits*amount after every atomic step (a deposit
+        counts from its invocation: it may have added its tokens) and exactly at quiescence;
+    (2) cap: 0 <= balance <= configured maximum after every step (for EVERY initial balance); the AIMD ceiling
+        within [min_budget, max_budget];
+    (3) 'as if executed one at a time': the history of calls (invocation .. response intervals) together with the
+        observer's balance() after every step is linearizable w.r.t. the sequential budget (AIMD: a deposit caps
+        at some ceiling within [min_budget, max_budget]) -- any linearization point inside an operation's
+        interval is accepted, not a particular atomic step."""
     kind, params, pre, progs, sched = parse(s)
     sp = split_trace(s, t)
     if sp is None:
         return "malformed or panicking run: %s" % t[:12]
     entries, per, final, pre_rets = sp
-    if kind == 0:
+    if is_tb(kind):
         mx, init = params[0], params[1]
-        cost, amount, cap = 1, 1, max(mx, init)
-        bal0 = init
+        if kind == 2 and params[2] == 1:
+            init = mx
+        cost, amount, cap = 1, 1, mx
+        bal0 = min(init, mx)            # the funded initial balance: never above the configured maximum
     else:
         mn, mxb, amount, cost = params[0], params[1], params[2], params[3]
         cap, bal0 = mxb, mxb
+    reads_max = kind == 1               # call code 3 = current_max() only on the concrete AimdBudget
+    check_ceiling = kind == 1           # the dyn object has no ceiling accessor
+    def bad_ret(c, r):
+        if c == W:
+            return r not in (0, 1)
+        if c == D:
+            return r != 2
+        return r < 0
     # the prelude ran alone before the workers: its grants and deposits count too
     for c, r in zip(pre, pre_rets):
-        if (c == W and r not in (0, 1)) or (c == D and r != 2):
+        if bad_ret(c, r):
             return "prelude call code %d returned %d" % (c, r)
     pre_grants = sum(1 for c, r in zip(pre, pre_rets) if c == W and r == 1)
     pre_deps = sum(1 for c in pre if c == D)
     done_idx = [0] * len(progs)        # completed calls per worker
-    begun = [False] * len(progs)       # current call has performed a step
     grants = pre_grants
     deposits_done = pre_deps
     for k, (op, done, bal, ceil) in enumerate(entries):
@@ -256,29 +443,25 @@ def monitor(s, t):
         else:
             if not (0 <= tid < len(progs)) or done_idx[tid] >= len(progs[tid]):
                 return "entry %d: worker %d stepped although it has no call left" % (k, tid)
-            begun[tid] = True
             if done != -1:
                 c = progs[tid][done_idx[tid]]
                 if per[tid][1][done_idx[tid]] != done:
                     return "worker %d call %d: per-step completion %d != reported result %d" % (
                         tid, done_idx[tid], done, per[tid][1][done_idx[tid]])
+                if bad_ret(c, done):
+                    return "call code %d returned %d" % (c, done)
                 if c == W:
-                    if done not in (0, 1):
-                        return "try_withdraw returned %d" % done
                     grants += done
                 elif c == D:
-                    if done != 2:
-                        return "deposit returned %d" % done
                     deposits_done += 1
                 done_idx[tid] += 1
-                begun[tid] = False
         if bal < 0 or bal > cap:
             return "balance %d outside [0, %d] after entry %d" % (bal, cap, k)
-        if kind == 1 and not (params[0] <= ceil <= params[1]):
+        if check_ceiling and not (params[0] <= ceil <= params[1]):
             return "AIMD ceiling %d outside [%d, %d] after entry %d" % (ceil, params[0], params[1], k)
-        # deposits that may already have added their tokens: completed or in progress
+        # deposits that may already have added their tokens: completed, or invoked (the call a worker is in)
         dep_maybe = deposits_done + sum(1 for i, p in enumerate(progs)
-                                        if begun[i] and done_idx[i] < len(p) and p[done_idx[i]] == D)
+                                        if done_idx[i] < len(p) and p[done_idx[i]] == D)
         if grants * cost + bal > bal0 + dep_maybe * amount:
             return "conservation violated after entry %d: grants %d * %d + balance %d > initial %d + deposits %d * %d" % (
                 k, grants, cost, bal, bal0, dep_maybe, amount)
@@ -288,43 +471,26 @@ def monitor(s, t):
     d_all = sum(1 for p in progs for c in p if c == D) + pre_deps
     for (st, rs), p in zip(per, progs):
         for r, c in zip(rs, p):
-            if (c == W and r not in (0, 1)) or (c == D and r != 2) or (c in (B, M) and r < 0):
+            if bad_ret(c, r):
                 return "bad return value %d for call code %d" % (r, c)
     if g_all * cost + fb > bal0 + d_all * amount:
         return "conservation violated at quiescence: grants %d * %d + balance %d > initial %d + deposits %d * %d" % (
             g_all, cost, fb, bal0, d_all, amount)
     if fb < 0 or fb > cap:
         return "final balance %d outside [0, %d]" % (fb, cap)
-    if kind == 1 and not (params[0] <= fc <= params[1]):
+    if check_ceiling and not (params[0] <= fc <= params[1]):
         return "final AIMD ceiling %d outside [%d, %d]" % (fc, params[0], params[1])
-    # linearizability of the token bucket: prelude, then the completions in the order of the
-    # completing steps, then the sequential tail
-    if kind == 0:
-        bal = bal0
-        for c, r0 in zip(pre, pre_rets):
-            r, bal = seq_op(0, params, bal, 0, c)
-            if r != r0:
-                return "prelude call %d returned %d, sequential object returns %d" % (c, r0, r)
-        idx = [0] * len(progs)
-        for k, (op, done, snap, _) in enumerate(entries):
-            if op != 0 and done != -1:
-                tid = sched[k]
-                c = progs[tid][idx[tid]]
-                idx[tid] += 1
-                r, bal = seq_op(0, params, bal, 0, c)
-                if r != done:
-                    return "not linearizable at the completing step: entry %d call %d returned %d, sequential object returns %d" % (k, c, done, r)
-            if snap != bal:
-                return "balance %d after entry %d differs from the sequential object's %d" % (snap, k, bal)
-        # the rest ran one worker at a time
-        for tid, p in enumerate(progs):
-            for j in range(idx[tid], len(p)):
-                r, bal = seq_op(0, params, bal, 0, p[j])
-                if per[tid][1][j] != r:
-                    return "worker %d call %d returned %d in the sequential tail, sequential object returns %d" % (
-                        tid, j, per[tid][1][j], r)
-        if bal != fb:
-            return "final balance %d differs from the sequential object's %d" % (fb, bal)
+    # linearizability
+    if is_tb(kind):
+        if max(mx, init) > TBCAP:
+            return None     # saturating sizes: how many whole tokens fit is representation-defined; (1) and (2) hold
+        obj = ("tb", cap)
+    else:
+        obj = ("ab", params[0], params[1], amount, cost, reads_max)
+    ops, reads = history(pre, pre_rets, progs, sched, entries, per, fb)
+    if not linearizable(obj, bal0, ops, reads):
+        return ("not linearizable: no sequential order of the calls (within their invocation..response intervals) "
+                "explains the return values and the balances read after every step")
     return None
 
 
@@ -340,7 +506,9 @@ def nontrivial(s, t):
 def classify(s, t):
     kind, params, pre, progs, sched = parse(s)
     sp = split_trace(s, t)
-    out = ["token_bucket" if kind == 0 else "aimd_budget", "workers%d" % len(progs)]
+    out = ["token_bucket" if is_tb(kind) else "aimd_budget", "workers%d" % len(progs)]
+    if kind >= 2:
+        out.append("via_builder_dyn")
     if sp is None:
         return out + ["malformed"]
     entries, per, final, pre_rets = sp
@@ -355,10 +523,26 @@ def classify(s, t):
         out.append("withdraw_refused")
     if 1 in rets:
         out.append("withdraw_granted")
-    if kind == 0 and params[1] > params[0]:
-        out.append("initial_gt_max")
-    if kind == 1 and any(e[3] < params[1] for e in entries):
-        out.append("ceiling_decreased")
+    if is_tb(kind):
+        if params[1] > params[0] and not (kind == 2 and params[2] == 1):
+            out.append("initial_gt_max")
+        if max(params[0], params[1]) > TBCAP:
+            out.append("tb_saturating_size")
+        elif max(params[0], params[1]) >= 1 << 32:
+            out.append("tb_big_size")
+    else:
+        if any(e[3] < params[1] for e in entries) and kind == 1:
+            out.append("ceiling_decreased")
+        if params[1] >= 1 << 32:
+            out.append("aimd_big_max")
+        if params[2] >= 1 << 32:
+            out.append("aimd_big_amount")
+        if params[3] == 0:
+            out.append("withdraw_amount_0")
+        if params[3] > params[1]:
+            out.append("withdraw_amount_gt_max")
+        if params[2] != params[3]:
+            out.append("amounts_differ")
     # defect shape: a deposit's steps straddle a granted withdrawal of another worker
     idx = [0] * len(progs)
     open_dep = set()
